@@ -144,6 +144,7 @@ func raceOnlyScenarios() []scenario {
 	filtFiles := map[string]string{"j.knut": jr.RenderAll(append(opensPrefix(), filt...))}
 	return []scenario{
 		{Name: "pipe-returns-filtered", Files: filtFiles, Args: []string{"portfolio", "returns", "-v", "CHF", "--account", "Assets|Liabilities", "--commodity", "USD|CHF", "--days", "j.knut"}},
+		{Name: "pipe-returns-two-expressions", Files: filtFiles, Args: []string{"portfolio", "returns", "-v", "CHF", "--account", "Cash", "--account", "Later", "--commodity", "USD", "--commodity", "EUR", "--days", "j.knut"}},
 		{Name: "big-file-5000-transcode", Files: bigFiles, Args: []string{"transcode", "-v", "CHF", "root.knut"}},
 		{Name: "big-infer-700", Files: inferFiles, Args: []string{"infer", "-t", "train.knut", "target.knut"}},
 		{Name: "big-table-balance", Files: files, Args: []string{"balance", "--color=false", "--digits", "2", "j.knut"}},
